@@ -210,9 +210,11 @@ def run(ctx):
                     bad_t = t_t if d[1] == "Eq" else f_t
                     # the bad edge must diverge (panic) before from_parts
                     reach = b.reachable(bad_t)
-                    if not any(b.term(x)["k"] == "return" for x in reach):
+                    # ... in every build: a check written with debug_assert! is compiled out without debug assertions
+                    debug_only = any("debug_assert" in str((b.term(x) or {}).get("expc") or "") for x in reach) or "debug_assert" in str(b.term(bb).get("expc") or "")
+                    if not any(b.term(x)["k"] == "return" for x in reach) and not debug_only:
                         ok = True
-        chk.ob("C14.a", f"{fo.path} [rejects capacity usize::MAX]", ok, "an owned value whose capacity would collide with the Shared tag panics instead of being mis-tagged" if ok else "from_owned no longer rejects capacity == usize::MAX (Owned would be decoded as Shared)", fo.loc())
+        chk.ob("C14.a", f"{fo.path} [rejects capacity usize::MAX]", ok, "an owned value whose capacity would collide with the Shared tag panics instead of being mis-tagged" if ok else "from_owned does not reject capacity == usize::MAX in every build (a debug_assert! vanishes in release builds): Owned would be decoded as Shared", fo.loc())
 
     # ---------------- C14.b
     for self_ty, raw_owner, copy_fns in (("str", ("String::from_raw_parts",), ("to_owned", "to_string", "from", "into")), ("[T]", ("Vec<T>::from_raw_parts", "Vec::from_raw_parts"), ("to_vec", "to_owned", "from", "into"))):
